@@ -13,7 +13,8 @@ func (cr *compRun) runLossy() {
 	w, cc := cr.w, cr.cc
 	nm := node.NewManager[int, int](node.Config{})
 	s := lossy.NewStriped(cc.Size, nm)
-	capacity := cc.Size * 16
+	ring := lossy.VerifRingSize()
+	capacity := cc.Size * ring
 	success := map[int]bool{}
 	attempted := map[int]bool{}
 	statusN := map[string]int{}
@@ -89,7 +90,7 @@ func (cr *compRun) runLossy() {
 	// quiescent: one final drain must deliver everything that was recorded successfully
 	drain()
 	if maxLen > capacity {
-		cr.fail(P("C17"), "lossy.capacity", -1, "Len()=%d exceeds the fixed capacity %d (%d stripes x 16)", maxLen, capacity, cc.Size)
+		cr.fail(P("C17"), "lossy.capacity", -1, "Len()=%d exceeds the fixed capacity %d (%d stripes x %d)", maxLen, capacity, cc.Size, ring)
 	}
 	for id, n := range delivered {
 		if !attempted[id] {
